@@ -112,19 +112,32 @@ func main() {
 	// design 1: the hand-written covering design (catch-alls, verb families, aliases as parameters, Any, extremes)
 	var cov *tierb.Built
 	if rp == nil {
-		cov, _ = b.Add(coveringDesign(), extract)
+		var oc designgen.Outcome
+		cov, oc = b.Add(coveringDesign(), extract)
 		if cov == nil || cov.GenErr != "" {
-			panic("the covering design was not accepted / generated: " + fmt.Sprint(cov))
+			panic(fmt.Sprintf("the covering design was not accepted / generated: %v %v %s", cov, oc.Err, oc.Panic))
+		}
+	}
+	// design 2: inline Extend / Reference in Result and Payload (hand-written DSL, flattened shadow)
+	var inh *tierb.Built
+	if rp == nil {
+		inh, _ = b.Add(inhShadow(), nil)
+		if inh == nil || inh.GenErr != "" {
+			panic("the shadow of the inline-inheritance design was not accepted / generated: " + fmt.Sprint(inh))
+		}
+		if err := regenWithDSL(b, inh, inhBuild, extract); err != nil {
+			panic("the inline-inheritance design: " + err.Error())
 		}
 	}
 	opts := designgen.DefaultOptions()
 	opts.Security = false // credentials are C06's business
 	opts.ExoticVerbs = true
-	for i := 0; len(b.Items) < nDesigns+2 && i < nDesigns*3; i++ {
+	for i := 0; len(b.Items) < nDesigns+3 && i < nDesigns*3; i++ {
 		d := designgen.Random(rng.Fork(), opts, i)
 		wr := rng.Fork()
 		widenAliasParams(wr, d)
 		widenCatchAll(wr, d)
+		widenResponses(wr, d)
 		bu, _ := b.Add(d, extract)
 		if bu == nil {
 			res.Count("design_rejected")
@@ -207,7 +220,15 @@ func main() {
 				add(cov, s, m, "witness", wc.Payload, wc.Result, wc.Expect)
 			}
 		}
-		for _, bu := range b.Items[2:] {
+		if inh.Dropped {
+			res.Fail("fixed/inline-inheritance-design-does-not-compile", "the generated code of the inline Extend/Reference design does not compile: "+inh.BuildErr, map[string]any{"design": inh.Design})
+		} else {
+			for _, wc := range inhCases(*prop) {
+				s, m := findMethod(inh.Design, "", wc.Method)
+				add(inh, s, m, "fixed", wc.Payload, wc.Result, "")
+			}
+		}
+		for _, bu := range b.Items[3:] {
 			if bu.Dropped {
 				res.Count("design_dropped_build")
 				res.Extra["last_build_error"] = bu.BuildErr
@@ -266,6 +287,8 @@ func main() {
 						}
 						if m.Result != nil && rv != nil {
 							rv = enrichAny(d, rng, &m.Result.T, rv, 0, stream == "hostile")
+							rv = steerTags(m, rv, k)
+							rv = fillTaggedHeaders(d, rng, m, rv)
 						}
 						add(bu, s, m, stream, pv, rv, "")
 					}
@@ -638,11 +661,14 @@ func evaluate(prop string, x *exchange, ob *rt.Obs) (sig, what string, extra map
 			if s, w := strayOnWire(x.ep, m, ob.Req); s != "" {
 				return s, w, extra
 			}
+			if s, w := strayRequestHeaders(m, ob.Req); s != "" {
+				return s, w, extra
+			}
 		}
 		return "", "", extra
 	}
 	// C03
-	if ob.Invoked != 1 {
+	if ob.Invoked < 1 {
 		return "", "", extra // the request side is C02's business
 	}
 	sel := selectResp(x.ep, ci.Result)
@@ -670,6 +696,10 @@ func evaluate(prop string, x *exchange, ob *rt.Obs) (sig, what string, extra map
 		}
 		if want := designedStatus(m, ci.Result); want != 0 && ob.Resp != nil && ob.Resp.Status != want {
 			return "status-not-designed", fmt.Sprintf("response status %d, design assigns %d", ob.Resp.Status, want), extra
+		}
+		// each attribute carried in its designed location: nothing else on the response
+		if s, w := strayOnResponse(d, m, ob.Resp); s != "" {
+			return s, w, extra
 		}
 	} else if ob.Resp != nil {
 		if want := designedStatus(m, nil); want != 0 && ob.Resp.Status != want {
